@@ -9,8 +9,10 @@ TARGETS = UNIFY_FAMILY
 def run(rep):
     fw.deductive(rep, TARGETS, ['engine_terms'], ['terms.smt2'], timeout=25 if rep.tier == 'quick' else 60)
     # the two iterator classes implement the semidet handle protocol (one answer False / no answer, store untouched)
-    from . import enginep
+    from . import enginep, syntactic
     enginep.engine_deductive(rep, enginep.ITER_CLASSES, heap_lemmas=False)
+    # premise of the store-level contracts: only Variable.__init__/unify write a binding cell; everything else binds through iterators
+    syntactic.no_direct_cell_writes(rep)
     from .. import lemmas
     fw.add_smt(rep, lemmas.prove_frame(), 'spec.L-SU-FRAME')
     fw.add_smt(rep, lemmas.specsync(24 if rep.tier == 'quick' else 200, rep.seed), 'spec.sync', 'sync')
